@@ -680,6 +680,9 @@ func c05Check(r *vcore.Run) vcore.Coverage {
 			atomic.AddInt64(&multi, 1)
 		}
 	})
+	muts := c05MutCases(r.Thorough())
+	vcore.ParallelN(len(muts), func(i int) { c05MutRun(r, muts[i]) })
+	r.Sample("mutating-consumer", muts[len(muts)/2])
 	r.Sample("paging", c05Case{Kind: "repos", Stack: "http1", Items: []string{"a", "b", "c"}, ClientN: 2, OmitLink: true, After: "a", StopAfter: 0, ErrAfter: -1})
 	for _, c := range cases {
 		if c.Stack == "sub-http1" && len(c.Items) > 4 {
@@ -692,11 +695,18 @@ func c05Check(r *vcore.Run) vcore.Coverage {
 		"an iteration that ends in an error is accepted wherever an error can legitimately arise (injected backend error, client page size above the server limit); otherwise the complete model sequence is required",
 		"in-process transport (bound to net/http by C03's loopback run)",
 	}
-	return vcore.Coverage{States: int64(len(cases)), Transitions: int64(len(cases)), TracesImpl: int64(len(cases)), Evaluations: int64(len(cases)), Nontrivial: multi, Exhaustive: true,
-		Rule: "item sets of size 0..5 (quick) / 0..7 (thorough), plus items with URL metacharacters and prefix-sibling names, x client page sizes {1,2,3,1000} x server page limit {none,2} x Link on/off x stacks {direct, 1 hop, 2 hops, ocidebug both sides, Select on either side, Sub on either side, ociunify of disjoint/overlapping/equal members (direct and over HTTP)} x start points (absent, each element, between, beyond, URL metacharacters) x consumer stopping after k x backend error after j, for repositories, tags and referrers; non-trivial = listings spanning more than one page"}
+	return vcore.Coverage{States: int64(len(cases) + len(muts)), Transitions: int64(len(cases) + len(muts)), TracesImpl: int64(len(cases) + len(muts)), Evaluations: int64(len(cases) + len(muts)), Nontrivial: multi + int64(len(muts)), Exhaustive: true,
+		Rule: "item sets of size 0..5 (quick) / 0..7 (thorough), plus items with URL metacharacters and prefix-sibling names, x client page sizes {1,2,3,1000} x server page limit {none,2} x Link on/off x stacks {direct, 1 hop, 2 hops, ocidebug both sides, Select on either side, Sub on either side, ociunify of disjoint/overlapping/equal members (direct and over HTTP)} x start points (absent, each element, between, beyond, URL metacharacters) x consumer stopping after k x backend error after j, for repositories, tags and referrers; plus consumers that delete or push tags / push repositories from inside the iteration (ocimem direct and over HTTP with page sizes 1, 2, 1000): every (delivery index, target) for one change and every pair of changes, oracle: strictly ascending, nothing that was never there, everything that was there throughout; non-trivial = listings spanning more than one page"}
 }
 
 func c05Replay(r *vcore.Run, sub string, raw json.RawMessage) {
+	if sub == "mutate" {
+		var c c05MutCase
+		if json.Unmarshal(raw, &c) == nil {
+			c05MutRun(r, c)
+		}
+		return
+	}
 	var c c05Case
 	if json.Unmarshal(raw, &c) == nil {
 		c05Run(r, c)
